@@ -3,12 +3,17 @@ import coqlit as L
 import gen as G
 import conv
 
-COQ_IMPORTS = ['Model.DFA', 'Model.NFA', 'Model.Minimize', 'Judge.C04_judge']
+COQ_IMPORTS = ['Decide.Moore', 'Judge.Extra_judge', 'Model.DFA', 'Model.NFA', 'Model.Minimize', 'Judge.C04_judge']
+EXTRA_JUDGES = ['Extra']
+EXTRA_PROPERTIES = ['C04_oracle']      # Properties/C04_oracle.v: the Moore oracle used for the large DFAs is proved to decide Myhill-Nerode equivalence
 RULE = ('all total DFAs with <=2 states x <=2 symbols and 3 states x 1 symbol (thorough: 4x1 and a 3x2 sample), random DFAs <=7 states x <=3 symbols incl. one-state, F empty, F = Q, unreachable states, '
         'duplicated (equivalent) states; dfa_minimize, dfa_quotient, dfa_hopfcroft (logging on for odd cases) under 4 (quick) / 16 (thorough) PYTHONHASHSEED values; input snapshot before/after. '
         'Relation: result valid, same alphabet, language-equivalent to the input (exact, verified dfa_equivb), pairwise distinguishable, state count between the MN class counts of reachable and of all states; '
         'structural layer: equal to the model result. Non-trivial = at least two states are merged and at least two classes remain; distinct by DFA text.')
 RULE += ' Added after the seeded rounds: the same object minimised, modified in place and minimised again; unusual state names.'
+RULE += (' Large DFAs (100-300 states; judged by the proved Moore oracle Decide/Moore.v instead of the models of the routines: result valid, same alphabet, same language, '
+         'no two equivalent states, exactly moore_count D states): random DFAs, a hub whose class breaks into more than a hundred pieces in one refinement round, and a DFA with a class of 12-14 states '
+         'that breaks into singletons at once and one state for every ordered pair of them (every pair of class numbers occurs as a successor signature).')
 CODES = {10: 'dfa_minimize raised/timed out', 11: 'dfa_minimize result invalid or alphabet changed', 12: 'dfa_minimize result not language-equivalent', 13: 'dfa_minimize result has equivalent states', 14: 'dfa_minimize state count out of bounds',
          20: 'dfa_quotient raised/timed out', 21: 'dfa_quotient result invalid or alphabet changed', 22: 'dfa_quotient result not language-equivalent', 23: 'dfa_quotient result has equivalent states', 24: 'dfa_quotient state count out of bounds',
          30: 'dfa_hopfcroft raised/timed out', 31: 'dfa_hopfcroft result invalid or alphabet changed', 32: 'dfa_hopfcroft result not language-equivalent', 33: 'dfa_hopfcroft result has equivalent states', 34: 'dfa_hopfcroft state count out of bounds',
@@ -19,6 +24,61 @@ RESIDUE = 'frozenset/set object identity and hashing; print_state_set naming (mo
 
 def hashseeds(tier):
     return [0, 1, 2, 3] if tier == 'quick' else list(range(16))
+
+
+def hub_dfa(rng, k):
+    """k 'target' chains t_i of different lengths (pairwise inequivalent: t_i accepts a^i-ish words) and a hub of k*k states h_ij with
+    a -> t_i, b -> t_j: after the targets are separated the hub class breaks into k*k pieces in one round"""
+    Q, delta, F = [], [], []
+    # targets: t_i_0 -a-> t_i_1 -a-> ... -a-> t_i_i (accepting sink); b loops
+    for i in range(k):
+        for j in range(i + 1):
+            q = 't%d_%d' % (i, j)
+            Q.append(q)
+            nxt = 't%d_%d' % (i, j + 1) if j < i else q
+            delta.append([q, 'a', nxt])
+            delta.append([q, 'b', q])
+        F.append('t%d_%d' % (i, i))
+    for i in range(k):
+        for j in range(k):
+            q = 'h%d_%d' % (i, j)
+            Q.append(q)
+            delta.append([q, 'a', 't%d_0' % i])
+            delta.append([q, 'b', 't%d_0' % j])
+    order = list(Q)
+    rng.shuffle(order)
+    return {'Q': order, 'Sigma': ['a', 'b'], 'delta': delta, 'q0': 'h0_0', 'F': F}
+
+
+def shatter_dfa(rng, m=12, chain=False):
+    """a class P of m accepting states that stays together for one round and then breaks into m classes at once (each p_i moves to a
+    different pair of four anchor states), plus one state for every ordered pair (p_x, p_y): every pair of class indices occurs as a
+    successor signature"""
+    a, b = 'a', 'b'
+    P = ['p%d' % i for i in range(m)]
+    anchors = ['s0', 's1', 's2', 's3']
+    delta = [['s0', a, 'p0'], ['s0', b, 'p0'], ['s1', a, 'p0'], ['s1', b, 's3'], ['s2', a, 's3'], ['s2', b, 'p0'], ['s3', a, 's3'], ['s3', b, 's3']]
+    pairs = [(x, y) for x in anchors for y in anchors]
+    rng.shuffle(pairs)
+    for p, (x, y) in zip(P, pairs[:m]):
+        delta += [[p, a, x], [p, b, y]]
+    cand = []
+    for x in range(m):
+        for y in range(m):
+            u = 'u_%d_%d' % (x, y)
+            cand.append(u)
+            delta += [[u, a, P[x]], [u, b, P[y]]]
+    Q = P + anchors + cand
+    q0 = 's0'
+    if chain:
+        ch = ['c%d' % k for k in range(len(cand))]
+        for k, c in enumerate(ch):
+            delta += [[c, a, ch[k + 1] if k + 1 < len(ch) else 's3'], [c, b, cand[k]]]
+        Q += ch
+        q0 = 'c0'
+    order = list(Q)
+    rng.shuffle(order)
+    return {'Q': order, 'Sigma': [a, b], 'delta': delta, 'q0': q0, 'F': list(P)}
 
 
 def gen(rng, tier):
@@ -50,10 +110,20 @@ def gen(rng, tier):
             d['delta'] = [[q, s_, t] for q, s_, t in d['delta'] if q != b] + [[b, s_, t] for q, s_, t in d['delta'] if q == a]
             d['F'] = [q for q in d['F'] if q != b] + ([b] if a in d['F'] else [])
         ds.append({'Q': [m[q] for q in d['Q']], 'Sigma': d['Sigma'], 'delta': [[m[q], s_, m[t]] for q, s_, t in d['delta']], 'q0': m[d['q0']], 'F': [m[q] for q in d['F']]})
+    # large DFAs judged through the fast proved Moore oracle (Decide/Moore.v) instead of the models of the three routines:
+    # a hub of many states whose successors lie in more than a dozen already separated classes (a class that breaks into many
+    # pieces in one refinement round), and plain random DFAs
+    big = []
+    for _ in range(1 if quick else 8):
+        big.append(hub_dfa(rng, rng.randint(12, 14)))
+    for i in range(1 if quick else 8):
+        big.append(shatter_dfa(rng, rng.randint(12, 14), chain=not quick and i % 2 == 0))
+    for _ in range(1 if quick else 8):
+        big.append(G.random_dfa(rng, rng.randint(100, 160), rng.choice(['ab', 'abc']), pfinal=0.5))
     # larger DFAs (36-44 states, three symbols): more than ten classes, classes that break into many pieces in one refinement round
     for _ in range(3 if quick else 40):
         ds.append(G.random_dfa(rng, rng.randint(36, 44), 'abc', pfinal=0.5))
-    cases = [{'D': d, 'log': i % 2 == 1} for i, d in enumerate(ds)]
+    cases = [{'D': d, 'log': i % 2 == 1} for i, d in enumerate(ds)] + [{'D': d, 'log': False, 'big': True} for d in big]
     # the same object is minimised, modified in place (accepting set, transitions) and minimised again
     for i in range(100 if quick else 1500):
         sigma = rng.choice(['a', 'ab'])
@@ -75,11 +145,12 @@ def _observe1(c, D):
     from implutil import safe, ok, captured_stdout
     before = conv.dfa_case(D)
     o = {}
-    o['min'] = _out(safe(dfa_minimize, D), ok)
-    o['quo'] = _out(safe(dfa_quotient, D), ok)
+    tl = 120 if c.get('big') else 3.0
+    o['min'] = _out(safe(dfa_minimize, D, timeout=tl), ok)
+    o['quo'] = _out(safe(dfa_quotient, D, timeout=tl), ok)
     GambaTools.enable_logging = bool(c.get('log'))
     with captured_stdout():
-        r = safe(dfa_hopfcroft, D)
+        r = safe(dfa_hopfcroft, D, timeout=tl)
     GambaTools.enable_logging = False
     o['hop'] = _out(r, ok)
     o['unchanged'] = conv.dfa_case(D) == before
@@ -127,6 +198,13 @@ def encode(c, o):
 
 
 def _encode1(c, o):
+    if c.get('big'):
+        d = c['D']
+        st, sy = L.state_names(d), L.symbol_names(d)
+
+        def plain(r):
+            return 'None' if r is None else '(Some %s)' % L.dfa(r, L.state_names(r), sy)
+        return 'judge_C04_big %s %s %s %s %s' % (L.dfa(d, st, sy), plain(o['min']), plain(o['quo']), plain(o['hop']), L.boolean(o['unchanged']))
     d = c['D']
     st, sy = L.state_names(d), L.symbol_names(d)
     return 'judge_C04 %s %s %s %s %s' % (L.dfa(d, st, sy), _dfa_sets(o['min'], st, sy), _dfa_sets(o['quo'], st, sy), _dfa_sets(o['hop'], st, sy), L.boolean(o['unchanged']))
@@ -134,6 +212,8 @@ def _encode1(c, o):
 
 def explain(c):
     d = c['D']
+    if c.get('big'):
+        return 'moore_count %s' % L.dfa(d, L.state_names(d), L.symbol_names(d))      # the number of Myhill-Nerode classes (Decide/Moore.v)
     return 'explain_C04 %s' % L.dfa(d, L.state_names(d), L.symbol_names(d))
 
 
@@ -175,6 +255,22 @@ def distribution(cases, obs):
 def shrink(c):
     out = []
     d = c['D']
+    if c.get('big'):
+        # large DFA (Moore oracle): drop blocks of states, transitions into a dropped state go to the initial state
+        n = len(d['Q'])
+        for size in (n // 2, n // 4, n // 8, 4, 1):
+            if size < 1:
+                continue
+            for start in range(0, n, size):
+                drop = set(d['Q'][start:start + size]) - {d['q0']}
+                if not drop:
+                    continue
+                e = {'Q': [x for x in d['Q'] if x not in drop], 'Sigma': d['Sigma'], 'q0': d['q0'], 'F': [x for x in d['F'] if x not in drop],
+                     'delta': [[p, a, (d['q0'] if t in drop else t)] for (p, a, t) in d['delta'] if p not in drop]}
+                out.append({'D': e, 'log': False, 'big': len(e['Q']) > 30})
+                if len(out) >= 40:
+                    return out
+        return out
     for q in d['Q']:
         if q == d['q0']:
             continue
